@@ -352,6 +352,16 @@ NormFrag(D, H, handles, fr, par, fld) ==
              H3 == [H2 EXCEPT ![c.v.id].d = [x \in DOMAIN @ \cup {fr.sub} |-> IF x = fr.sub THEN LPrim("s", fr.v, fr.sub) ELSE @[x]],
                               ![c.v.id].dm = TRUE]
          IN [H |-> H3, v |-> Sub(id)]
+    [] fr.f = "dk" ->
+         \* map{ "<k1>.<k2>": v } under a path separator: the dotted key creates the intermediate k1; the value
+         \* is recorded under the name k2 with the intermediate as its parent
+         LET id  == NextId(H)
+             H1  == WithNode(H, id, NodeAt(par, fld))
+             mid == NextId(H1)
+             H2  == WithNode(H1, mid, NodeAt(id, fr.k1))
+             r   == NormFrag(D, H2, handles, fr.val, mid, fr.k2)
+             H3  == [r.H EXCEPT ![mid].d = (fr.k2 :> r.v), ![mid].dm = TRUE, ![id].d = (fr.k1 :> Sub(mid)), ![id].dm = TRUE]
+         IN [H |-> H3, v |-> Sub(id)]
     [] fr.f = "m" ->
          LET id == NextId(H) IN
          [H |-> NormMap(D, WithNode(H, id, NodeAt(par, fld)), handles, fr.m, id, DOMAIN fr.m), v |-> Sub(id)]
